@@ -35,6 +35,11 @@ impl MioListener {
     }
 
     pub(crate) fn accept(&self) -> io::Result<MioStream> {
+        #[cfg(actix_net_verif)]
+        if let Some(res) = crate::verif::accept_hook(self) {
+            return res;
+        }
+
         match *self {
             MioListener::Tcp(ref lst) => lst.accept().map(|(stream, _)| MioStream::Tcp(stream)),
             #[cfg(unix)]
